@@ -97,8 +97,13 @@ DEPS_ENV = """
 // ---- generate_dependencies: what is traced for one allowlisted item
 impl BindgenContext {
     pub uninterp spec fn s_item(&self, id: ItemId) -> Item;
-    #[verifier::external_body] pub fn resolve_item(&self, id: ItemId) -> (r: &Item) ensures *r == self.s_item(id) { unimplemented!() }
+    #[verifier::external_body] pub fn resolve_item<I: IntoItemId>(&self, id: I) -> (r: &Item) ensures *r == self.s_item(id.iid()) { unimplemented!() }
 }
+pub trait IntoItemId { spec fn iid(&self) -> ItemId; }
+impl IntoItemId for ItemId { open spec fn iid(&self) -> ItemId { *self } }
+impl IntoItemId for TypeId { open spec fn iid(&self) -> ItemId { self.0 } }
+impl IntoItemId for FunctionId { open spec fn iid(&self) -> ItemId { self.0 } }
+impl IntoItemId for VarId { open spec fn iid(&self) -> ItemId { self.0 } }
 impl Item {
     #[verifier::external_body] pub fn as_type(&self) -> (r: Option<&Type>)
         ensures match self.s_kind() { ItemKind::Type(ty) => r.is_some() && *r.unwrap() == ty, _ => r.is_none() } { unimplemented!() }
